@@ -52,20 +52,35 @@ RULE = ("names: every sequence of 1..4 (thorough: 1..5) segments over {'..','.',
         "audit monitor must see no open() outside the search directories and no sentinel content "
         "may come back. compositions: random ChoiceLoader/PrefixLoader/DictLoader "
         "(and FileSystemLoader leaves) trees of depth<=3, all names of <=2 and a fifth of those of 3 segments over 6 fragments (+ ':' / '.' delimiter variants), "
-        "get_source and get_template compared with a 10-line resolution model; leaves are DictLoader, "
+        "get_source and get_template compared with a 10-line resolution model (a PrefixLoader has a "
+        "name iff the name contains the delimiter, the text before its first occurrence is a registered "
+        "prefix and that prefix's loader has the rest; a ChoiceLoader answers with its first loader that "
+        "has the name); leaves are DictLoader, "
         "FunctionLoader (load function answering with a str or a (source, filename, uptodate) tuple, "
-        "None for a missing name) and FileSystemLoader, and about one template in six of a dict/function "
+        "None for a missing name), CATCH-ALL FunctionLoaders (a template for every name, or for every "
+        "name with a given ending -- the empty name included) and FileSystemLoader, and about one template in six of a dict/function "
         "leaf as well as four files of the search directories are EMPTY (a loader that holds the empty "
-        "source has the name); 20 hostile names (NUL, over-long piece / path, lone surrogate, the "
+        "source has the name); a third of the dict / function leaves hold the EMPTY NAME '' (and "
+        "names that are a delimiter only); prefixes are drawn from a, b, p, q, x.html, aa, ab (string "
+        "prefixes of each other) and, in 15% of the prefix loaders, the empty prefix; delimiters '/', "
+        "':', '.', '::'; the pool holds ~75 edge names of the naming rule: '', each delimiter alone, "
+        "each prefix alone (no delimiter), each prefix + each delimiter (empty local name), a leading "
+        "delimiter, doubled / trailing / mixed delimiters, names under aa / ab; the evidence counts "
+        "how often a looked-up name was a registered prefix without delimiter while the prefix's "
+        "loader has the empty name, an empty local name was found, the empty prefix was used ...; "
+        "20 hostile names (NUL, over-long piece / path, lone surrogate, the "
         "special directory entries) are in the pool: dict / function leaves hold them in 40% of the "
         "cases, FileSystemLoader leaves (15% of the nodes at depth<=2) must answer them with "
         "TemplateNotFound so that a later loader gets its turn. dynamic compositions: "
         "per shard 40 (thorough 1200) random ChoiceLoader/PrefixLoader trees of depth<=3 over DictLoader "
-        "and FunctionLoader leaves (the harness keeps the mapping) and FileSystemLoader leaves on private "
-        "directories, templates set to the empty source in about a quarter of the add/change steps; a "
+        "and FunctionLoader leaves (the harness keeps the mapping), FileSystemLoader leaves on private "
+        "directories and (8% of the leaves) unchanging catch-all FunctionLoaders, prefixes a / b / p / q / "
+        "aa, delimiters '/', ':', '.', '::', templates set to the empty source in about a quarter of the add/change steps; a "
         "history of 6..12 steps, each adding, deleting or re-texting one name in one leaf (names chosen "
-        "so that sibling leaves compete for the same full name); at the start and after EVERY step every "
-        "probe name (each leaf's route x {'t','u/t','x.html'}) is looked up on the SAME loader instance "
+        "so that sibling leaves compete for the same full name; the EMPTY local name is one of them "
+        "for mapping leaves); at the start and after EVERY step every "
+        "probe name (each leaf's route x {'t','u/t','x.html',''}, every registered prefix alone and "
+        "every delimiter alone below its route) is looked up on the SAME loader instance "
         "via loader.get_source, Environment(cache_size=0).get_template and (for the touched name) a "
         "fresh default Environment, and compared with the same resolution model evaluated on what the "
         "leaves hold at that moment. distinct = distinct "
@@ -91,7 +106,12 @@ ASSUMPTIONS = [
     "PackageLoader is exercised for a regular directory package only (no zip, no namespace package)",
     "opens made by the import machinery (importlib frames on the stack) are not attributed to loaders",
     "a FunctionLoader leaf has a name iff its load function returns something other than None (the "
-    "documented protocol); the empty string is a template source like any other",
+    "documented protocol); the empty string is a template source like any other, and the empty "
+    "string is a template NAME like any other for a mapping / load function",
+    "PrefixLoader naming rule as documented ('the prefix is delimited from the template by a slash per "
+    "default'): the name is split at the FIRST occurrence of the delimiter; registered prefixes "
+    "never contain the delimiter; a name without the delimiter is not found whatever the prefixes are",
+    "a FileSystemLoader leaf ignores empty and '.' pieces of a name ('a/' designates the file 'a')",
     "dynamic compositions: only leaf contents change (a DictLoader sees later changes of the mapping it was "
     "given; a FileSystemLoader sees files appear/disappear); the loader lists / prefix mappings of "
     "ChoiceLoader / PrefixLoader themselves are not mutated; lookups go through cache_size=0 or fresh "
@@ -107,7 +127,27 @@ FLOORS = {
                            "get_template_calls": 11000, "compositions": 240,
                            "compose_lookups": 55000, "compose_found": 7000,
                            "compose_found_empty_template": 1000,
-                           "compose_function_loader_leaves": 200,
+                           "compose_function_loader_leaves": 160,
+                           "compose_catch_all_leaves": 170,
+                           "compose_leaves_holding_the_empty_name": 200,
+                           "compose_edge_name_lookups": 33000,
+                           "compose_name_empty-name": 480, "compose_name_delimiter-only": 1900,
+                           "compose_name_prefix-alone": 3300,
+                           "compose_name_prefix-plus-delimiter": 13000,
+                           "compose_name_leading-delimiter": 4800,
+                           "compose_name-is-a-prefix-without-delimiter": 800,
+                           "compose_name-is-a-prefix-without-delimiter:inner-loader-has-the-empty-name": 200,
+                           "compose_name-is-a-prefix-without-delimiter:a-later-loader-has-the-name": 6,
+                           "compose_empty-local-name": 700, "compose_empty-local-name:found": 180,
+                           "compose_empty-prefix": 150,
+                           "compose_prefix-is-a-string-prefix-of-another-prefix": 900,
+                           "compose_another-prefix-is-a-string-prefix-of-the-name": 1600,
+                           "compose_catch-all-leaf-answers": 10000,
+                           "dyn_name-is-a-prefix-without-delimiter": 1300,
+                           "dyn_name-is-a-prefix-without-delimiter:inner-loader-has-the-empty-name": 500,
+                           "dyn_empty-local-name": 1100, "dyn_empty-local-name:found": 500,
+                           "dyn_leaf-holds-the-empty-name": 1000,
+                           "dyn_catch-all-leaf-answers": 400,
                            "dyn_found_empty_template": 2500, "dyn_steps_on_function_leaf": 500,
                            "compose_notfound": 48000, "dyn_compositions": 160,
                            "dyn_steps": 1400, "dyn_lookups": 17000, "dyn_found": 12000,
@@ -134,7 +174,29 @@ FLOORS = {
                               "get_template_calls": 87000, "compositions": 6000,
                               "compose_lookups": 1390000, "compose_found": 178000,
                               "compose_found_empty_template": 29000,
-                              "compose_function_loader_leaves": 5000,
+                              "compose_function_loader_leaves": 4000,
+                              "compose_catch_all_leaves": 4000,
+                              "compose_leaves_holding_the_empty_name": 4500,
+                              "compose_edge_name_lookups": 750000,
+                              "compose_name_empty-name": 10000,
+                              "compose_name_delimiter-only": 43000,
+                              "compose_name_prefix-alone": 75000,
+                              "compose_name_prefix-plus-delimiter": 310000,
+                              "compose_name_leading-delimiter": 107000,
+                              "compose_name-is-a-prefix-without-delimiter": 18000,
+                              "compose_name-is-a-prefix-without-delimiter:inner-loader-has-the-empty-name": 5000,
+                              "compose_name-is-a-prefix-without-delimiter:a-later-loader-has-the-name": 250,
+                              "compose_empty-local-name": 16000,
+                              "compose_empty-local-name:found": 4500,
+                              "compose_empty-prefix": 4000,
+                              "compose_prefix-is-a-string-prefix-of-another-prefix": 19000,
+                              "compose_another-prefix-is-a-string-prefix-of-the-name": 35000,
+                              "compose_catch-all-leaf-answers": 240000,
+                              "dyn_name-is-a-prefix-without-delimiter": 40000,
+                              "dyn_name-is-a-prefix-without-delimiter:inner-loader-has-the-empty-name": 17000,
+                              "dyn_empty-local-name": 36000, "dyn_empty-local-name:found": 16000,
+                              "dyn_leaf-holds-the-empty-name": 33000,
+                              "dyn_catch-all-leaf-answers": 15000,
                               "dyn_found_empty_template": 78000,
                               "dyn_steps_on_function_leaf": 17000,
                               "compose_notfound": 1200000, "pairs_5_segments": 1200000,
@@ -715,7 +777,7 @@ def pool_names():
                 out.append("/".join(segs))
     out += [n.replace("/", ":", 1) for n in out[6:42:2]] + \
            [n.replace("/", ".", 1) for n in out[7:42:3]]
-    return out + HOSTILE_POOL
+    return out + EDGE_POOL + HOSTILE_POOL
 
 
 # hostile names of the composition pool (see HOSTILE_FRAGS): a DictLoader /
@@ -726,14 +788,64 @@ HOSTILE_POOL = ["x\0y", "a/x\0y", "a:x\0y", "p/q/\0", LONG_SEG, "p/" + LONG_SEG,
                 "a/loop.lnk", "dangling.lnk", "b/dangling.lnk", "thru/part.txt", "dirfile", "thru"]
 
 
+# prefixes a PrefixLoader of a composition may register: plain ones, ones that are
+# string prefixes of each other (a / aa / ab) and the empty prefix
+C_PREFIXES = ["a", "b", "p", "q", "x.html", "aa", "ab", ""]
+C_DELIMS = ["/", ":", ".", "::"]
+# names at the edges of "prefix + delimiter + local name": the empty name, a
+# delimiter alone, a prefix alone (the 1-segment pool names a, b, p, q, x.html
+# are that already), a prefix + delimiter with the EMPTY local name, a leading
+# delimiter (empty prefix), names under prefixes that are prefixes of each
+# other, doubled / trailing delimiters
+EDGE_POOL = ([""] + C_DELIMS + ["aa", "ab"]
+             + [p + d for p in C_PREFIXES[:7] for d in C_DELIMS]
+             + [d + n for d in C_DELIMS for n in ("a", "x.html")]
+             + ["aa/a", "ab/x.html", "aa:b", "ab.q", "aa::p", "a::b", "a:::b", "a/:b", "a//b", "a/b/",
+                "a/a/", "p/q/", "a:b:", "a.b.", "a/aa", "aa/a/b", "a/aa/b", "/a/b", "//a", "p::q::a",
+                "a/b::p", "q::"])
+
+
+def name_class(name):
+    """Class of an edge name (None for an ordinary one) -- only NAMES the workload."""
+    if name == "":
+        return "empty-name"
+    if name in C_DELIMS:
+        return "delimiter-only"
+    if name in C_PREFIXES:
+        return "prefix-alone"
+    for d in sorted(C_DELIMS, key=len, reverse=True):
+        if name.endswith(d) and name[:-len(d)] in C_PREFIXES:
+            return "prefix-plus-delimiter"
+    if name in EDGE_SET:
+        if name[0] in "/:.":
+            return "leading-delimiter"
+        if name[-1] in "/:.":
+            return "trailing-delimiter"
+        return "other-edge-name"
+    return None
+
+
+EDGE_SET = frozenset(EDGE_POOL)
+
+
+def catch_all_text(ident, name):
+    return f"G{ident}:{name}"[:60]
+
+
 def gen_spec(rng, depth, names, counter, sb=None):
-    kinds = ["dict", "dict", "func"] if depth <= 1 else \
-        ["dict", "func", "choice", "choice", "choice", "prefix", "prefix", "prefix"]
+    kinds = ["dict", "dict", "func", "funcany"] if depth <= 1 else \
+        ["dict", "func", "funcany", "choice", "choice", "choice", "choice", "prefix", "prefix",
+         "prefix", "prefix"]
     if sb is not None and depth <= 2 and rng.random() < 0.15:
         kinds = ["fs"]
     kind = rng.choice(kinds)
     counter[0] += 1
     ident = counter[0]
+    if kind == "funcany":
+        # a load function that answers EVERY name (or every name with a given ending),
+        # the empty name included
+        return ["funcany", ident, rng.choice([None, None, "", ".html", "a", "/", "b.txt"]),
+                rng.choice(["str", "tuple"])]
     if kind in ("dict", "func"):
         k = rng.choice([0, 2, 5, 12, 25, 40])
         chosen = sorted(rng.sample(names[:42], min(k, 30)) + rng.sample(names[42:], k // 4))
@@ -741,6 +853,9 @@ def gen_spec(rng, depth, names, counter, sb=None):
         if rng.random() < 0.4:
             # names only a mapping can hold (the OS would refuse them as file names)
             chosen = sorted(set(chosen) | set(rng.sample(HOSTILE_POOL, rng.randint(1, 4))))
+        if rng.random() < 0.35:
+            # the EMPTY name (and names that are nothing but a delimiter) as a key
+            chosen = sorted(set(chosen) | {""} | set(rng.sample(C_DELIMS, rng.randint(0, 2))))
         mp = {n: ("" if rng.random() < 0.15 else f"{kind[0].upper()}{ident}:{n}"[:60])
               for n in chosen}
         if kind == "func":
@@ -752,8 +867,10 @@ def gen_spec(rng, depth, names, counter, sb=None):
     if kind == "choice":
         return ["choice", [gen_spec(rng, depth - 1, names, counter, sb)
                            for _ in range(rng.randint(1, 3))]]
-    prefixes = sorted(rng.sample(["a", "b", "p", "q", "x.html"], rng.randint(1, 3)))
-    delim = rng.choice(["/", "/", "/", ":", "."])
+    prefixes = sorted(rng.sample(C_PREFIXES[:7], rng.randint(1, 4)))
+    if rng.random() < 0.15:
+        prefixes = [""] + prefixes
+    delim = rng.choice(["/", "/", "/", ":", ".", "::"])
     prefixes = [p for p in prefixes if delim not in p] or ["a"]
     return ["prefix", {p: gen_spec(rng, depth - 1, names, counter, sb) for p in prefixes}, delim]
 
@@ -776,6 +893,19 @@ def function_loader(mapping, style="str"):
     return FunctionLoader(load)
 
 
+def catch_all_loader(ident, ending, style="str"):
+    """FunctionLoader whose load function has a template for every name
+    (ending None) or for every name that ends with ``ending``."""
+    from jinja2 import FunctionLoader
+
+    def load(name):
+        if ending is not None and not name.endswith(ending):
+            return None
+        src = catch_all_text(ident, name)
+        return src if style == "str" else (src, None, lambda: True)
+    return FunctionLoader(load)
+
+
 def build(spec, sb):
     from jinja2 import ChoiceLoader, DictLoader, FileSystemLoader, PrefixLoader
 
@@ -784,6 +914,8 @@ def build(spec, sb):
         return DictLoader(dict(spec[1]))
     if k == "func":
         return function_loader(dict(spec[1]), spec[2] if len(spec) > 2 else "str")
+    if k == "funcany":
+        return catch_all_loader(spec[1], spec[2], spec[3])
     if k == "fs":
         return FileSystemLoader(getattr(sb, spec[1]))
     if k == "choice":
@@ -798,8 +930,13 @@ def resolve(spec, name, sb):
     k = spec[0]
     if k in ("dict", "func", "funcdyn"):
         return spec[1].get(name)
+    if k == "funcany":
+        return catch_all_text(spec[1], name) if spec[2] is None or name.endswith(spec[2]) else None
     if k == "fsdyn":
-        return None if ".." in name.split("/") else spec[1].get(name)
+        # '/' separates path pieces below the search directory; empty pieces and '.' say nothing
+        pieces = name.split("/")
+        rel = [p for p in pieces if p not in ("", ".")]
+        return None if ".." in pieces or not rel else spec[1].get("/".join(rel))
     if k == "fs":
         pieces = name.split("/")
         if ".." in pieces:
@@ -851,17 +988,70 @@ def culprit(spec, names, sb, api):
     return None
 
 
+def prefix_situations(spec, name, sb, out):
+    """Which edge situations of the PrefixLoader naming rule the lookup of
+    ``name`` runs into on its way down (evaluated on the model; only used to
+    COUNT what the workload reached).  A ChoiceLoader asks its loaders in order
+    until one has the name."""
+    k = spec[0]
+    if k == "choice":
+        for c in spec[1]:
+            prefix_situations(c, name, sb, out)
+            if resolve(c, name, sb) is not None:
+                break
+    elif k == "prefix":
+        delim = spec[2]
+        if delim not in name:
+            if name in spec[1]:
+                out.add("name-is-a-prefix-without-delimiter")
+                if resolve(spec[1][name], "", sb) is not None:
+                    out.add("name-is-a-prefix-without-delimiter:inner-loader-has-the-empty-name")
+            return
+        prefix, rest = name.split(delim, 1)
+        if prefix not in spec[1]:
+            if any(p and name.startswith(p) for p in spec[1]):
+                out.add("another-prefix-is-a-string-prefix-of-the-name")
+            return
+        if prefix == "":
+            out.add("empty-prefix")
+        if rest == "":
+            out.add("empty-local-name")
+            if resolve(spec[1][prefix], "", sb) is not None:
+                out.add("empty-local-name:found")
+        if any(q != prefix and q.startswith(prefix) and prefix for q in spec[1]):
+            out.add("prefix-is-a-string-prefix-of-another-prefix")
+        prefix_situations(spec[1][prefix], rest, sb, out)
+    elif k == "funcany" and resolve(spec, name, sb) is not None:
+        out.add("catch-all-leaf-answers")
+    elif k in ("dict", "func", "funcdyn") and name == "" and "" in spec[1]:
+        out.add("leaf-holds-the-empty-name")
+
+
 def check_composition(ctx, sb, spec, names, case):
     from jinja2 import Environment
 
     ld = build(spec, sb)
     env = Environment(loader=ld, cache_size=0)
     ctx.count("compositions")
-    ctx.count("compose_function_loader_leaves", json.dumps(spec).count('["func"'))
-    has_fs = '["fs"' in json.dumps(spec)
+    js = json.dumps(spec)
+    ctx.count("compose_function_loader_leaves", js.count('["func"'))
+    ctx.count("compose_catch_all_leaves", js.count('["funcany"'))
+    ctx.count("compose_leaves_holding_the_empty_name", js.count('{"": '))
+    has_fs = '["fs"' in js
     hostile = set(HOSTILE_POOL)
     for name in names:
         want = resolve(spec, name, sb)
+        ncls = name_class(name)
+        if ncls:
+            ctx.count("compose_edge_name_lookups", 2)
+            ctx.count("compose_name_" + ncls, 2)
+        sit = set()
+        prefix_situations(spec, name, sb, sit)
+        for st in sorted(sit):
+            ctx.count("compose_" + st, 2)
+        if "name-is-a-prefix-without-delimiter:inner-loader-has-the-empty-name" in sit \
+                and want is not None:
+            ctx.count("compose_name-is-a-prefix-without-delimiter:a-later-loader-has-the-name", 2)
         for api in ("get_source", "get_template"):
             got, exc = lookup(ld, env, name, api)
             ctx.ev()
@@ -890,7 +1080,7 @@ def check_composition(ctx, sb, spec, names, case):
             else:
                 what = "not-the-first-loader-that-has-it"
             shown = name if len(name) < 80 else name[:30] + "..." + name[-30:]
-            ctx.violation(f"compose:{who}:{api}:{what}",
+            ctx.violation(f"compose:{who}:{api}:{what}" + (f":{ncls}" if ncls else ""),
                           f"{api}({shown!r}) on {str(spec)[:1500]} gave {got!r} ({exc!r}); the first "
                           f"loader that has the name gives {want!r}", dict(case, name=name))
             return
@@ -920,9 +1110,9 @@ def part_compose(ctx, sb, quick):
 # The same composed loader INSTANCE is asked again and again while its leaves
 # gain, lose and change templates: "the first loader that has it" must be
 # decided from what the loaders hold at the time of the lookup.
-DYN_INNER = ["t", "u/t", "x.html"]
+DYN_INNER = ["t", "u/t", "x.html", ""]      # '' = the EMPTY local name (probe = prefix + delimiter)
 LEAF_KINDS = ("dict", "funcdyn", "fsdyn")
-DYN_PREFIXES = ["a", "b", "p", "q"]
+DYN_PREFIXES = ["a", "b", "p", "q", "aa"]
 
 
 def gen_dyn_spec(rng, depth, top=False):
@@ -935,11 +1125,16 @@ def gen_dyn_spec(rng, depth, top=False):
                  "prefix"]
     kind = rng.choice(kinds)
     if kind in LEAF_KINDS:
+        if not top and rng.random() < 0.08:
+            # a catch-all load function (never changes; answers every name / every name
+            # with the given ending, the empty name included)
+            return ["funcany", rng.randrange(1000), rng.choice([None, None, "t", ".html"]),
+                    rng.choice(["str", "tuple"])]
         return [kind, {}]
     if kind == "choice":
         return ["choice", [gen_dyn_spec(rng, depth - 1) for _ in range(rng.randint(2, 3))]]
     prefixes = sorted(rng.sample(DYN_PREFIXES, rng.randint(1, 2)))
-    delim = rng.choice(["/", "/", "/", ":", "."])
+    delim = rng.choice(["/", "/", "/", ":", ".", "::"])
     return ["prefix", {p: gen_dyn_spec(rng, depth - 1) for p in prefixes}, delim]
 
 
@@ -962,14 +1157,30 @@ def fs_conflict(name, existing):
     return any(e != name and (e.startswith(name + "/") or name.startswith(e + "/")) for e in existing)
 
 
+def fs_name(name):
+    """Can a file be created under this name below a search directory?"""
+    return all(p not in ("", ".", "..") for p in name.split("/"))
+
+
 def gen_dynamic(rng, steps):
     """(initial spec, ops, probe names).  ops: ['set', leaf index, local name, text]
     | ['del', leaf index, local name]; every op really changes what the leaf holds."""
-    spec = gen_dyn_spec(rng, 3, top=True)
-    leaves = [(s, r) for s, r in dyn_nodes(spec) if s[0] in LEAF_KINDS]
-    probes = sorted({r + i for _, r in leaves for i in DYN_INNER})
-    cands = [sorted({p[len(r):] for p in probes if p.startswith(r) and len(p) > len(r)})
-             for _, r in leaves]
+    while True:
+        spec = gen_dyn_spec(rng, 3, top=True)
+        leaves = [(s, r) for s, r in dyn_nodes(spec) if s[0] in LEAF_KINDS]
+        if leaves:          # at least one leaf whose contents can change
+            break
+    probes = {r + i for _, r in leaves for i in DYN_INNER}
+    # every registered prefix ALONE (no delimiter) and the delimiter alone
+    for s, r in dyn_nodes(spec):
+        if s[0] == "prefix":
+            probes |= {r + pfx for pfx in s[1]} | {r + s[2]}
+    probes = sorted(probes)
+    # what a leaf may be given: every probe below its route -- the EMPTY local name included
+    # (mappings only; a directory cannot hold it)
+    cands = [sorted({p[len(r):] for p in probes if p.startswith(r)
+                     and (fs_name(p[len(r):]) if leaf[0] == "fsdyn" else True)})
+             for leaf, r in leaves]
     for li, (leaf, _) in enumerate(leaves):
         for c in cands[li]:
             if rng.random() < 0.3 and not (leaf[0] == "fsdyn" and fs_conflict(c, leaf[1])):
@@ -1022,6 +1233,8 @@ class DynBuild:
                 mp = dict(s[1])
                 ld = function_loader(mp, ("str", "tuple")[len(self.handles) % 2])
                 self.handles.append(mp)
+            elif s[0] == "funcany":
+                ld = catch_all_loader(s[1], s[2], s[3])
             elif s[0] == "fsdyn":
                 d = os.path.join(self.dir, f"leaf{nfs[0]}")
                 nfs[0] += 1
@@ -1055,7 +1268,13 @@ class DynBuild:
             else:
                 h[op[2]] = op[3]
         elif op[0] == "del":
-            os.remove(os.path.join(h, *op[2].split("/")))
+            p = os.path.join(h, *op[2].split("/"))
+            os.remove(p)
+            # directories left empty go too (a later step may create a FILE of that name)
+            d = os.path.dirname(p)
+            while d != h and not os.listdir(d):
+                os.rmdir(d)
+                d = os.path.dirname(d)
         else:
             self.write(h, op[2], op[3])
 
@@ -1106,6 +1325,10 @@ def run_dynamic(ctx, sb, spec0, ops, probes, case):
                     else:
                         ctx.count("dyn_text_changed")
                 prev[name] = want
+                sit = set()
+                prefix_situations(spec, name, sb, sit)
+                for st in sorted(sit):
+                    ctx.count("dyn_" + st)
                 apis = ["get_source", "get_template"]
                 if name == affected or after == "init":
                     apis.append("fresh_env_get_template")
